@@ -25,13 +25,20 @@ META = dict(
     'reals (symx on the real code): non-periodic coordinates and shape '
     'untouched, input not modified, exact inverse, and compute() places the '
     'largest circular gap across the boundary for every order of the '
-    'construction points.',
+    'construction points. (4) The real NautilusBound.compute (Union and '
+    'NeuralBound replaced by recording stand-ins): the points both of its '
+    'ellipsoid unions are built from, in the shifted frame, have their '
+    'largest circular gap across the boundary in every periodic coordinate, '
+    'for all points, likelihoods and thresholds (ties included).',
     bounds=dict(fp='all finite float64 x, c in [0,1) (full width, no '
                 'sampling)', reals='d <= 3, <= 3 points (quick) / 4 points '
                 '(thorough), every subset of periodic coordinates'),
     functions=['bounds/periodic.py:PhaseShift.transform',
-               'PhaseShift.compute'],
-    stubs=['none (FP part); symnp shim for the real-arithmetic part'],
+               'PhaseShift.compute',
+               'bounds/nautilus.py:NautilusBound.compute (shift part)'],
+    stubs=['none (FP part); symnp shim for the real-arithmetic part',
+           'Union / NeuralBound inside NautilusBound.compute: recording '
+           'stand-ins that never split'],
     outside=['monolithic float64 round trip (QF_FP does not finish); '
              'replaced by the rounding-error model',
              'more than 4 construction points'],
@@ -55,6 +62,17 @@ def jobs(tier):
     for d, per, n in gaps:
         jobs.append(Job(H + 'gap', dict(d=d, periodic=per, n=n),
                         pkg_key='default', max_paths=6000))
+    # the shift as used by the nautilus bound: the points its ellipsoid
+    # unions are built from have their largest gap across the boundary
+    nbc = [dict(d=1, n=3, periodic=[0]), dict(d=2, n=3, periodic=[1]),
+           dict(d=2, n=2, periodic=[0, 1]), dict(d=1, n=2)]
+    for cfg in nbc:
+        jobs.append(Job('harness.nautilus_steps:nb_compute', cfg,
+                        pkg_key='bounds', max_paths=6000))
+    if thorough:
+        jobs.append(Job('harness.nautilus_steps:nb_compute',
+                        dict(d=1, n=4, periodic=[0]), pkg_key='bounds',
+                        max_paths=6000, split=6))
     return jobs
 
 
